@@ -395,6 +395,81 @@ struct Job {
     text: String,
 }
 
+
+/// two to four small modules that import types, values, classes, objects and object sets from
+/// each other in every direction: chains (a value whose type lives in a third module), cycles,
+/// self-imports, symbols and modules that do not exist, definitive identifiers present in the
+/// header and absent, wrong or present in the FROM clause
+fn import_web(src: &mut Src) -> String {
+    let n = 2 + src.pick(3);
+    let names = ["Web-A", "Web-B", "Web-C", "Web-D"];
+    let oid = |k: usize| format!("{{ iso(1) standard(0) {} }}", 90 + k);
+    let has_oid: Vec<bool> = (0..n).map(|_| src.chance(35)).collect();
+    // what module k exports: (symbol, kind)
+    let symbols = |k: usize| -> Vec<String> { vec![format!("T{k}"), format!("v{k}"), format!("CLS{k}"), format!("obj{k}"), format!("Set{k}"), format!("w{k}")] };
+    let mut out = String::new();
+    for k in 0..n {
+        let mut imports: Vec<(usize, Vec<String>)> = vec![];
+        let mut imported_types: Vec<String> = vec![];
+        let mut imported_values: Vec<String> = vec![];
+        for _ in 0..src.pick(4) {
+            // mostly another module, now and then the module itself or one that is not there
+            let from = match src.weighted(&[10, 1, 1]) {
+                0 => (k + 1 + src.pick(n - 1)) % n,
+                1 => k,
+                _ => n + 1,
+            };
+            let mut syms = vec![];
+            for _ in 0..1 + src.pick(3) {
+                let all = symbols(from.min(3));
+                let sym = if src.chance(8) { "Missing-Symbol".to_string() } else { all[src.pick(all.len())].clone() };
+                if sym.starts_with('T') {
+                    imported_types.push(sym.clone());
+                }
+                if sym.starts_with('v') || sym.starts_with('w') {
+                    imported_values.push(sym.clone());
+                }
+                if !syms.contains(&sym) {
+                    syms.push(sym);
+                }
+            }
+            imports.push((from, syms));
+        }
+        out.push_str(&format!("{} {}DEFINITIONS {} ::= BEGIN\n", names[k], if has_oid[k] { format!("{} ", oid(k)) } else { String::new() }, ["AUTOMATIC TAGS", "EXPLICIT TAGS", "IMPLICIT TAGS", ""][src.pick(4)]));
+        if src.chance(20) {
+            out.push_str(if src.chance(50) { "EXPORTS ALL;\n" } else { "EXPORTS ;\n" });
+        }
+        if !imports.is_empty() {
+            out.push_str("IMPORTS");
+            for (from, syms) in &imports {
+                let mname = if *from > n { "Web-Nowhere".to_string() } else { names[*from].to_string() };
+                let id = match src.weighted(&[5, 2, 1, 1]) {
+                    0 => String::new(),
+                    1 if *from < n && has_oid[*from] => format!(" {}", oid(*from)),
+                    2 => format!(" {}", oid(7)),
+                    3 => " { iso standard 8571 } WITH SUCCESSORS".to_string(),
+                    _ => String::new(),
+                };
+                out.push_str(&format!(" {} FROM {mname}{id}", syms.join(", ")));
+            }
+            out.push_str(";\n");
+        }
+        // the module's own definitions; the type of its value may be its own or an imported one
+        let own_t = format!("T{k}");
+        let vt = if !imported_types.is_empty() && src.chance(60) { imported_types[src.pick(imported_types.len())].clone() } else { own_t.clone() };
+        out.push_str(&format!("T{k} ::= {}\n", ["INTEGER (0..10)", "INTEGER", "ENUMERATED { a, b }", "SEQUENCE { x INTEGER }"][src.pick(4)]));
+        out.push_str(&format!("v{k} {vt} ::= {}\n", ["5", "a", "{ x 1 }"][src.pick(3)]));
+        out.push_str(&format!("w{k} INTEGER ::= {}\n", if !imported_values.is_empty() && src.chance(50) { imported_values[src.pick(imported_values.len())].clone() } else { "7".to_string() }));
+        out.push_str(&format!("CLS{k} ::= CLASS {{ &id INTEGER UNIQUE, &Type OPTIONAL }} WITH SYNTAX {{ ID &id [TYPE &Type] }}\n"));
+        out.push_str(&format!("obj{k} CLS{k} ::= {{ ID {k} TYPE {vt} }}\nSet{k} CLS{k} ::= {{ obj{k}, ... }}\n"));
+        let dv = if !imported_values.is_empty() { imported_values[src.pick(imported_values.len())].clone() } else { format!("w{k}") };
+        let bt = if !imported_types.is_empty() { imported_types[src.pick(imported_types.len())].clone() } else { own_t.clone() };
+        out.push_str(&format!("S{k} ::= SEQUENCE {{ a INTEGER DEFAULT {dv}, b {bt} OPTIONAL, c {}.{bt} OPTIONAL }}\n", names[(k + 1) % n]));
+        out.push_str("END\n\n");
+    }
+    out
+}
+
 fn make_jobs(seed: u64, n: usize, reals: &[(String, String)]) -> Vec<Job> {
     let mut drv = Driver::new(seed, 8, 2500);
     let streams: Vec<Vec<u32>> = drv.draw(n).iter().map(|t| t.current()).collect();
@@ -404,7 +479,7 @@ fn make_jobs(seed: u64, n: usize, reals: &[(String, String)]) -> Vec<Job> {
         .enumerate()
         .map(|(i, s)| {
             let mut src = Src::new(s);
-            let class = src.weighted(&[2, 3, 3, 3, 2, 1, 2, 3]);
+            let class = src.weighted(&[2, 3, 3, 3, 2, 1, 2, 3, 2]);
             // skip a few numbers so that the inner generators do not mirror the class choice
             for _ in 0..3 {
                 src.raw();
@@ -435,6 +510,7 @@ fn make_jobs(seed: u64, n: usize, reals: &[(String, String)]) -> Vec<Job> {
                 }
                 4 => Job { class: "exotic", text: exotic_module(&mut src) },
                 7 => Job { class: "type-value-mismatch", text: mismatch_module(&mut src) },
+                8 => Job { class: "import-web", text: import_web(&mut src) },
                 5 => {
                     // (malformed input nested deeper than ~25 levels takes exponential time: finding
                     // F-exp-backtrack, confirmed from its repro; mutants stay shallow so that the
@@ -607,7 +683,7 @@ pub fn run(tier: Tier, seed: u64, replay: Option<String>) -> i32 {
     ctx.rule = "inputs: byte/token soup, prefixes of valid modules (generated and real-world), token-level mutations (delete, insert, replace, duplicate, swap, \
                 splice) of real-world, generated and exotic-notation modules, modules composed from a library of every notation the lexer parses (classes, objects, \
                 object sets, parameterization, selection, COMPONENTS OF, TIME, REAL, EXTERNAL, MACRO, PATTERN/CONTAINING/WITH COMPONENTS, cyclic aliases / values / \
-                object sets, deep nesting), well-formed modules pairing 30 type notations with 40 value notations and 34 constraints whether they fit or not \
+                object sets, deep nesting), webs of two to four modules that import types, values, classes, objects and object sets from each other (chains, cycles, self-imports, missing symbols and modules, definitive identifiers present / absent / wrong), well-formed modules pairing 30 type notations with 40 value notations and 34 constraints whether they fit or not \
                 (as assignment, via alias, as DEFAULT, as SEQUENCE OF elements; with cyclic aliases and cyclic values, plain and module-qualified, in scope), inputs cut inside comments/strings at EOF, multi-byte characters at token boundaries; each is compiled in an isolated worker \
                 (8 MiB stack) with the rasn backend (default and non-opaque open types) and the TypeScript backend, and every error and warning is rendered with Display \
                 and contextualize; a panic, a dead worker (abort / stack exhaustion) or a confirmed timeout is a violation; non-trivial = the lexer got past the module \
